@@ -41,7 +41,7 @@ def run_machine(ctx, name, interp_cls, init_strategy, rules, max_examples, steps
             self.trace = {"init": init, "ops": []}
             cur["case"] = self.trace
             ctx.evaluations += 1
-            if ctx.out_of_time():
+            if not cur.get("failed") and ctx.out_of_time():
                 self.dead = True
                 return
             try:
@@ -57,6 +57,11 @@ def run_machine(ctx, name, interp_cls, init_strategy, rules, max_examples, steps
                 self.it.step(opname, args)
             except runner.KnownSkip:
                 self.dead = True
+            except runner.Violation as v:
+                if not cur.get("failed"):
+                    cur["failed"] = True
+                    cur["first"] = ({"init": self.trace["init"], "ops": list(self.trace["ops"])}, v)
+                raise
 
         def teardown(self):
             if self.it is not None and not self.dead:
@@ -84,7 +89,10 @@ def run_machine(ctx, name, interp_cls, init_strategy, rules, max_examples, steps
     except runner.Violation as v:
         runner.record_violation(ctx, name, cur.get("case"), v)
     except hypothesis.errors.HypothesisException as e:
-        raise runner.HarnessError("hypothesis error in %s: %r" % (name, e))
+        if cur.get("first") is not None:
+            runner.record_violation(ctx, name, cur["first"][0], cur["first"][1])
+        else:
+            raise runner.HarnessError("hypothesis error in %s: %r" % (name, e))
     except RecursionError:
         raise runner.HarnessError("RecursionError in %s: %s" % (name, traceback.format_exc()[-1500:]))
     except Exception as e:
